@@ -130,6 +130,12 @@ func (s *Server) ListStores(ctx context.Context, req *openfgav1.ListStoresReques
 		return nil, err
 	}
 
+	// nil means "no restriction" (access control off or skipped); a non-nil empty list means the caller
+	// may get no store. The datastores treat an empty ID filter as no filter, so answer here.
+	if storeIDs != nil && len(storeIDs) == 0 {
+		return &openfgav1.ListStoresResponse{Stores: []*openfgav1.Store{}}, nil
+	}
+
 	// even though we have the list of store IDs, we need to call ListStoresQuery to fetch the entire metadata of the store.
 	q := commands.NewListStoresQuery(s.datastore,
 		commands.WithListStoresQueryLogger(s.logger),
